@@ -61,6 +61,52 @@ var structTable = map[string]ctor{
 //   XRequestTCP{MBAPHeader, XRequest}  ->  (tid, req)        XRequestRTU{XRequest}  ->  req
 // (derived from the declaration, see (*pkg).wrapperParts).
 
+// recordTable: structs of package modbus (builder.go, splitter.go) that the generated code holds as
+// RECORDS of coq/BuilderSpec.v / coq/BuilderModel.v: a value is a term of the record type, a field
+// read is the projection, a composite literal is the constructor, an assignment to a field of a
+// local variable rebuilds the record.
+//
+//	fields  Go field -> projection, in the order of the constructor's arguments
+//	opaque  Go fields whose content the model carries in another form: any use is outside the fragment
+//	zero    Go fields without counterpart: they must keep their zero value
+type recField struct{ goName, proj string }
+type record struct {
+	coqType string
+	ctor    string
+	fields  []recField
+	opaque  []string
+	zero    []string
+}
+
+var recordTable = map[string]record{
+	"Field": {coqType: "field", ctor: "Build_field",
+		fields: []recField{{"Name", "f_name"}, {"ServerAddress", "f_server"}, {"UnitID", "f_unit"}, {"Address", "f_addr"},
+			{"Type", "f_type"}, {"Bit", "f_bit"}, {"FromHighByte", "f_high"}, {"Length", "f_len"}, {"ByteOrder", "f_order"}},
+		opaque: []string{"Name"}}, // the model numbers the definitions instead of naming them
+	"builderSlot": {coqType: "slot", ctor: "Build_slot",
+		fields: []recField{{"address", "s_addr"}, {"size", "s_size"}, {"fields", "s_fields"}}},
+	"builderSlotGroup": {coqType: "sgroup", ctor: "Build_sgroup",
+		fields: []recField{{"serverAddress", "g_server"}, {"unitID", "g_unit"}, {"isForCoils", "g_coils"}, {"slots", "g_slots"}}},
+	"requestBatch": {coqType: "batch", ctor: "Build_batch",
+		fields: []recField{{"Address", "b_server"}, {"UnitID", "b_unit"}, {"StartAddress", "b_start"}, {"Quantity", "b_qty"}, {"fields", "b_fields"}},
+		zero:   []string{"IsForCoils"}},
+}
+
+// how a value returned as interface{} is written as a RegistersSpec.aval, by its static Go type
+func anyWrap(t *typ) string {
+	switch {
+	case t.k == kBool:
+		return "VBool"
+	case t.isUint() || t.k == kF32 || t.k == kFloat:
+		return "(fun v => VInt (Z.of_N v))"
+	case t.isSint() || t.k == kInt:
+		return "VInt"
+	case t.k == kString || t.k == kBytes:
+		return "VBytes"
+	}
+	return ""
+}
+
 // errCtor says how a Go struct used AS AN ERROR VALUE is written as a PacketModel.perr.
 //
 //	payload  the field holding the exception record
@@ -86,6 +132,18 @@ var sentinelTable = map[string]string{
 var plainErrorCalls = map[string]bool{"errors.New": true, "fmt.Errorf": true}
 
 // which functions are translated (by name); everything they call is translated on demand
+// targets of package modbus (stage 6)
+var rootTargets = map[string]bool{
+	"Field.registerSize": true, "Field.Validate": true, "builderSlots.IndexOf": true, "slotsSorter.Less": true,
+	"builderSlotGroup.AddField": true, "batchToRequests": true, "Field.ExtractFrom": true,
+	// NOT translated (outside the fragment; see the report in DESIGN.md / the stage-6 notes):
+	//   groupForSingleConnection            a Go map keyed by fmt.Sprintf strings, iterated in random order
+	//   BuilderRequest.extractRegisterFields / extractCoilFields / ExtractFields
+	//                                       dynamic dispatch through interface values (response.AsRegisters,
+	//                                       type switch), error values stored as data in FieldValue
+	//   split                               calls the two above and the packet constructors through an interface
+}
+
 func isTarget(fd *funcDecl) (mode string, ok bool) {
 	n := fd.decl.Name.Name
 	switch {
